@@ -558,7 +558,7 @@ func c01R6(c *Ctx, live map[*ssa.Function]bool) {
 
 	// (b) callers of finishHandshake: hs argument comes from an authenticating reader whose error is nil here
 	authReaders := map[string]bool{
-		hopID("transport", "Server", "readPQClientAuth"):           true,
+		hopID("transport", "Server", "readPQClientAuth"):            true,
 		hopID("transport", "Server", "handlePQClientRequestHidden"): true,
 	}
 	ncall := 0
